@@ -26,6 +26,8 @@ VARIABLES l,        \* next line
           unconf,   \* per chain: messages whose send is logged as started but not as finished
           fullpos,  \* reference: per chain (1-based) the position hash of every draw
           pdiv, psteps,  \* progress counters the trace implies (post-warm-up divergences, steps)
+          aliveSeen,     \* per chain: its command sender still existed at the chain's previous event (a poll that
+                         \* found the mailbox empty is logged after it happened, possibly after the sender was dropped)
           emptySeen,     \* per chain: its mailbox held no confirmed message at some instant since the
                          \* chain's previous event (a poll is logged after it happened)
           flushedSet,    \* chains whose storage was flushed while the current flush command is handled
@@ -34,17 +36,18 @@ VARIABLES l,        \* next line
           snap           \* per chain: rec[i] if the chain was quiescent when the controller took the
                          \* current command, else -1
 
-tvars == <<vars, l, unconf, fullpos, pdiv, psteps, emptySeen, snap, lastcb, mustfail, flushedSet>>
+tvars == <<vars, l, unconf, fullpos, pdiv, psteps, emptySeen, aliveSeen, snap, lastcb, mustfail, flushedSet>>
 R == Rec[l]
 IsEvent(e) == l <= Len(Rec) /\ Rec[l].ev = e /\ l' = l + 1
-Silent == UNCHANGED <<l, unconf, fullpos, pdiv, psteps, emptySeen, snap, lastcb, mustfail, flushedSet>>
-Keep == UNCHANGED <<unconf, fullpos, pdiv, psteps, emptySeen, snap, lastcb, mustfail, flushedSet>>
+Silent == UNCHANGED <<l, unconf, fullpos, pdiv, psteps, emptySeen, aliveSeen, snap, lastcb, mustfail, flushedSet>>
+Keep == UNCHANGED <<unconf, fullpos, pdiv, psteps, emptySeen, aliveSeen, snap, lastcb, mustfail, flushedSet>>
 KeepBut(i) == /\ UNCHANGED <<unconf, fullpos, pdiv, psteps, snap, lastcb, mustfail, flushedSet>>
               /\ emptySeen' = [emptySeen EXCEPT ![i] = (Len(mailbox'[i]) <= unconf[i])]
+              /\ aliveSeen' = [aliveSeen EXCEPT ![i] = alive'[i]]
 
 Zero == [i \in Chains |-> 0]
 TInit == TLCSet(2, 0) /\ Init /\ l = 1 /\ unconf = Zero /\ fullpos = <<>> /\ pdiv = Zero /\ psteps = Zero
-         /\ emptySeen = [i \in Chains |-> TRUE] /\ snap = [i \in Chains |-> -1] /\ lastcb = [i \in Chains |-> 0] /\ mustfail = {} /\ flushedSet = {}
+         /\ emptySeen = [i \in Chains |-> TRUE] /\ aliveSeen = [i \in Chains |-> TRUE] /\ snap = [i \in Chains |-> -1] /\ lastcb = [i \in Chains |-> 0] /\ mustfail = {} /\ flushedSet = {}
 
 \* ---- run boundaries -----------------------------------------------------
 TrReset ==
@@ -67,7 +70,7 @@ TrReset ==
     /\ results' = <<>> /\ senders' = NChains /\ cdone' = "no" /\ failed' = {}
     /\ win' = FALSE /\ quota' = Zero /\ since' = Zero
     /\ unconf' = Zero /\ fullpos' = R.fullpos /\ pdiv' = Zero /\ psteps' = Zero
-    /\ emptySeen' = [i \in Chains |-> TRUE] /\ snap' = [i \in Chains |-> -1] /\ lastcb' = [i \in Chains |-> 0] /\ mustfail' = {} /\ flushedSet' = {}
+    /\ emptySeen' = [i \in Chains |-> TRUE] /\ aliveSeen' = [i \in Chains |-> TRUE] /\ snap' = [i \in Chains |-> -1] /\ lastcb' = [i \in Chains |-> 0] /\ mustfail' = {} /\ flushedSet' = {}
 
 \* ---- user ---------------------------------------------------------------
 TrUCall ==
@@ -85,6 +88,9 @@ TrURetCmd ==
             \* C11: when every chain is parked or finished the reported counters are the trace's
             /\ R.cmd = "progress" => \A i \in Chains : R.finished[i + 1] <= prog[i] + 1
             /\ R.cmd = "inspect" => \A i \in Chains : R.lens[i + 1] <= rec[i] /\ R.prefixok
+            \* C10: a snapshot contains every chain whose storage exists and has recorded something, whatever that
+            \* chain is doing at the moment
+            /\ R.cmd = "inspect" => \A i \in Chains : (rec[i] > 0 /\ slot[i] = "present") => R.has[i + 1]
             /\ UNCHANGED vars
        ELSE UCallFails
     /\ Keep
@@ -115,7 +121,7 @@ TrCtlRecv ==
                   IF i \notin failed /\ (ch[i].st = "done" \/ (ch[i].st = "parked" /\ mailbox[i] = <<>>))
                   THEN rec[i] ELSE -1]
     /\ flushedSet' = {}
-    /\ UNCHANGED <<unconf, fullpos, pdiv, psteps, emptySeen, lastcb, mustfail>>
+    /\ UNCHANGED <<unconf, fullpos, pdiv, psteps, emptySeen, aliveSeen, lastcb, mustfail>>
 
 \* the recording storage of chain i was asked to flush (a harness event of the storage backend).  While the
 \* controller handles a flush command it counts towards "the command reached every chain"; a flush at any other
@@ -123,7 +129,7 @@ TrCtlRecv ==
 TrStFlush ==
     /\ IsEvent("st_flush")
     /\ flushedSet' = IF cpc.st = "handle" /\ cpc.cmd = "flush" THEN flushedSet \cup {R.i} ELSE flushedSet
-    /\ UNCHANGED <<vars, unconf, fullpos, pdiv, psteps, emptySeen, snap, lastcb, mustfail>>
+    /\ UNCHANGED <<vars, unconf, fullpos, pdiv, psteps, emptySeen, aliveSeen, snap, lastcb, mustfail>>
 
 \* the progress callback, called on the controller thread at start-up, whenever `rate` has
 \* elapsed without a command, and once more when the command channel is closed: per chain the
@@ -138,7 +144,7 @@ TrCallback ==
           /\ R.total[i + 1] = Draws
           /\ R.finished[i + 1] > 0 => R.started[i + 1]
     /\ lastcb' = [i \in Chains |-> R.finished[i + 1]]
-    /\ UNCHANGED <<vars, unconf, fullpos, pdiv, psteps, emptySeen, snap, mustfail, flushedSet>>
+    /\ UNCHANGED <<vars, unconf, fullpos, pdiv, psteps, emptySeen, aliveSeen, snap, mustfail, flushedSet>>
 
 TrCtlFwd ==
     /\ IsEvent("ctl_fwd")
@@ -146,13 +152,13 @@ TrCtlFwd ==
     /\ R.msg = (IF cpc.cmd = "pause" THEN "Pause" ELSE "Resume")
     /\ CtlForward
     /\ unconf' = [unconf EXCEPT ![R.i] = @ + 1]
-    /\ UNCHANGED <<fullpos, pdiv, psteps, emptySeen, snap, lastcb, mustfail, flushedSet>>
+    /\ UNCHANGED <<fullpos, pdiv, psteps, emptySeen, aliveSeen, snap, lastcb, mustfail, flushedSet>>
 
 TrCtlFwdDone ==
     /\ IsEvent("ctl_fwd_done")
     \* (the receiver may already have taken the message)
     /\ unconf' = [unconf EXCEPT ![R.i] = IF @ > 0 THEN @ - 1 ELSE 0]
-    /\ UNCHANGED <<vars, fullpos, pdiv, psteps, emptySeen, snap, lastcb, mustfail, flushedSet>>
+    /\ UNCHANGED <<vars, fullpos, pdiv, psteps, emptySeen, aliveSeen, snap, lastcb, mustfail, flushedSet>>
 
 \* before responses_tx.send: per-chain visits of flush / inspect / progress carry no
 \* event of their own and are folded in
@@ -199,7 +205,7 @@ TrCtlFinalized ==
 \* A poll may report "empty" although a message is in the mailbox as long as
 \* that message's send may not have completed yet.
 PollSeen(i, m) ==
-    CASE m = "empty" -> (emptySeen[i] \/ Len(mailbox[i]) <= unconf[i]) /\ alive[i]
+    CASE m = "empty" -> (emptySeen[i] \/ Len(mailbox[i]) <= unconf[i]) /\ (alive[i] \/ aliveSeen[i])
       [] m = "disconnected" -> mailbox[i] = <<>> /\ ~alive[i]
       [] OTHER -> mailbox[i] # <<>> /\ Head(mailbox[i]) = m
 
@@ -215,6 +221,7 @@ TrChMsg ==
     \* a popped message can no longer be unconfirmed
     /\ unconf' = [unconf EXCEPT ![R.i] = IF @ > Len(mailbox'[R.i]) THEN Len(mailbox'[R.i]) ELSE @]
     /\ emptySeen' = [emptySeen EXCEPT ![R.i] = (Len(mailbox'[R.i]) <= unconf'[R.i])]
+    /\ aliveSeen' = [aliveSeen EXCEPT ![R.i] = alive'[R.i]]
     /\ UNCHANGED <<fullpos, pdiv, psteps, snap, lastcb, mustfail, flushedSet>>
 
 TrChCheck ==
@@ -228,7 +235,7 @@ TrChCheck ==
 TrFatalFired ==
     /\ IsEvent("fatal_fired")
     /\ mustfail' = IF R.i \in Chains /\ ch[R.i].st = "drawing" THEN mustfail \cup {R.i} ELSE mustfail
-    /\ UNCHANGED <<vars, unconf, fullpos, pdiv, psteps, emptySeen, snap, lastcb, flushedSet>>
+    /\ UNCHANGED <<vars, unconf, fullpos, pdiv, psteps, emptySeen, aliveSeen, snap, lastcb, flushedSet>>
 
 TrChDrawn ==
     /\ IsEvent("ch_drawn")
@@ -252,6 +259,7 @@ TrChRecorded ==
     /\ pdiv' = [pdiv EXCEPT ![R.i] = IF R.diverging /\ ~R.tuning THEN @ + 1 ELSE @]
     /\ psteps' = [psteps EXCEPT ![R.i] = @ + R.num_steps]
     /\ emptySeen' = [emptySeen EXCEPT ![R.i] = (Len(mailbox'[R.i]) <= unconf[R.i])]
+    /\ aliveSeen' = [aliveSeen EXCEPT ![R.i] = alive'[R.i]]
     /\ UNCHANGED <<unconf, fullpos, snap, lastcb, mustfail, flushedSet>>
 
 TrChResult ==
